@@ -4,6 +4,8 @@ CONSTANTS
   Ns <- N4
   MaxMsgs = 3
   CasesPerBehaviour = 0
+  MHeads = {1, 2, 3}
+  MChanges = {0, 1, 2}
 INVARIANTS MalformedNeverCounted GhostWellDefined TargetCapped FinalisableChain
 PROPERTY Monotone
 VIEW View
